@@ -103,4 +103,20 @@ def synthesizeSingle (E : Env α) (cols : List (RawCol α)) (nrows : Nat) (names
   | .error e => .error e
   | .ok (convs, F) => materializeTree E F convs (List.range cols.length) hstream mstream
 
+/-- `NoClustering.build_clusters`: the first column alone, every other column patched in by itself -/
+def noClusteringPlan (n : Nat) : Clusters :=
+  { initial := [0], derivedClusters := (List.range (n - 1)).map fun i => ⟨.shared, [], [i + 1]⟩ }
+
+/-- `SingleClustering.build_clusters`: one cluster holding every column -/
+def singleClusteringPlan (n : Nat) : Clusters := { initial := List.range n, derivedClusters := [] }
+
+/-- `Synthesizer(df, pids, params, clustering).sample()` from the typed table to the assembled table, for a given cluster plan:
+convertors fitted, the table normalised, the forest built, every cluster materialised and stitched or patched on -/
+def synthesizePlan (E : Env α) (cols : List (RawCol α)) (nrows : Nat) (names : List String) (pids : Array (List UInt64))
+    (ap : AnonParams α) (bp : BucketParams) (kind : CounterKind) (isIntegral : List Bool) (entropy : List α) (threshRel : α)
+    (cl : Clusters) (streams : List (List Nat × List (Draw α))) : GM α (MTable (Cell α) α) :=
+  match forestOfTable E cols nrows names pids ap bp kind with
+  | .error e => throw e
+  | .ok (convs, F) => buildTable E F convs isIntegral entropy threshRel cl streams
+
 end
